@@ -24,7 +24,9 @@ CHECKS = {
          "generated program; a witness checker proved sound w.r.t. Sub validates every accepted case (all groundings "
          "of unresolved variables from a finite pool, resolved constraints, bounded variables); C03_core_sound proves "
          "the statement unconditionally (every satisfying grounding, satisfiability, boundedness) for constraint-free "
-         "schemas; for constrained schemas the proof is per-instance (verified checker) - partial",
+         "schemas and C03_sub_sound extends it to schemas with subtype constraints x <= A / x < A including 'every "
+         "resolved constraint holds' (attachment invariant through bind's set merging); for schemas with elimination "
+         "constraints the proof is per-instance (verified checker) - partial",
          "4 C03", "Coq-verified per-instance checker + engine model correspondence (universal soundness partial)"),
  "C05": ("on the faithful engine model: lub / permutation invariance / monotonicity proved for every hierarchy and "
          "any number of chain arguments (identity and nested covariant contexts, Top/Bottom included), glb for the "
@@ -37,6 +39,13 @@ CHECKS = {
          "accept iff fits for one base alternative; every generated case's accept/reject compared with the verified "
          "matcher, unique-fit and between-ness oracles",
          "4 C06", "Coq proof of the fits decision procedure + engine correspondence + oracle"),
+ "C07": ("annotation half of add_expr and add_type with the type_nodes memo under all nine switches, on top of the "
+         "add_expr, URI and canon models: one node per concept, type = node of the inferred type (URI iff Language.uri "
+         "has one), subtypeOf = exactly the canonical supertypes incl. itself, via, containsType/containsOperation = "
+         "exactly the unions over the nodes, type nodes once per type with parameters in order, nothing else described; "
+         "vocabulary agreement decided on predicate names read at run time from the produced graphs, the query text and "
+         "vocab/transforge.ttl",
+         "4 C07", "Coq proof (exact triple sets for every event list and switch combination) + correspondence + run-time vocabulary agreement"),
  "C08": ("add_expr wiring modelled over an abstract add_from: for every well-formed expression of any depth the "
          "from/internal/via triples are exactly the declaratively built flow graph of its application tree (sources "
          "shared by identity, one internal node per function-typed argument fed by every other input and by sibling "
@@ -70,6 +79,12 @@ CHECKS = {
          "store; on the model C16_history proves for EVERY prior store and every well-scoped program that the run is the "
          "shifted image of the run in the empty store and leaves the old store untouched (frame), incl. after failures",
          "4 C16", "Coq proof on the engine model (frame/freshness) + history differential testing"),
+ "C19": ("schedule independence of the graph models: for add_from histories, add_expr's three wiring loops under any "
+         "objects() order, expand_canon under any children/stack/push order, successors, taxonomy, add_workflow under any "
+         "tool_outputs order, the produced triple set is the same (15 theorems over the C08/C09/C10/C12 models); on the "
+         "implementation every case is generated in fresh interpreters with different PYTHONHASHSEED (guard unset and "
+         "set), again in-process after unrelated graphs, and compared up to isomorphism including all literals",
+         "4 C19", "Coq proof (permutation invariance of every modelled iteration) + multi-interpreter isomorphism oracle"),
  "C20": ("TypeUnion.add / Bag.add / the emitted containsType lines modelled branch by branch over a decidable order "
          "instantiated with C01's is_subtype: union = exactly the minimal (maximal) inserted elements for every "
          "insertion sequence and permutation; for every history and every up-set P the reduced bag and the emitted "
